@@ -7,6 +7,7 @@
 -/
 import WowVerif.Lemmas.C01
 import WowVerif.Lemmas.C01Whole
+import WowVerif.Lemmas.C01Bet
 namespace Wv.C01
 open Wv Wv.Mpq
 
@@ -110,6 +111,31 @@ theorem unit_compressed (c : Conv) (codec : Codec) (stored plain : Bytes)
 theorem table_roundtrip (rows : List (List Nat)) (key : W32) :
     Model.decryptBlock (toWords (encodeTable rows key)).1 key = rows.flatMap fun r => r.map (BitVec.ofNat 32) :=
   Mpq.encodeTable_decode rows key
+
+/-! ## the extended block table of V3/V4 archives (Model.C01Bet) -/
+
+/-- EXTENDED BLOCK TABLE READS BACK EXACTLY: with the column widths the builder chooses, every row of the bit-packed
+    table (position, size, stored size, flag index of one file) is returned unchanged by the reader — for every number
+    of rows and every entry width, in particular past the 64 bits a machine word holds (archives over about 1 MB) -/
+theorem bet_roundtrip (rows : List Bet.Row) (nflags : Nat) (hn : nflags ≤ 2 ^ 32)
+    (h32 : ∀ r ∈ rows, r.pos < 2 ^ 32 ∧ r.size < 2 ^ 32 ∧ r.csize < 2 ^ 32 ∧ r.flag < nflags)
+    (i : Nat) (r : Bet.Row) (hi : rows[i]? = some r) :
+    Bet.readRow (Bet.layoutOf rows nflags) (Bet.tableBytes (Bet.layoutOf rows nflags) rows) i = some r :=
+  Bet.bet_roundtrip rows nflags hn h32 i r hi
+
+/-- … and for ANY column widths up to 57 bits (a table written by another tool) the reader returns each value cut to
+    its column width: columns never bleed into each other or into the next row -/
+theorem bet_columns_independent (l : Bet.Lay) (hw : l.wPos ≤ 57 ∧ l.wSize ≤ 57 ∧ l.wCsize ≤ 57 ∧ l.wFlag ≤ 57)
+    (rows : List Bet.Row) (i : Nat) (r : Bet.Row) (hi : rows[i]? = some r) :
+    Bet.readRow l (Bet.tableBytes l rows) i
+      = some { pos := r.pos % 2 ^ l.wPos, size := r.size % 2 ^ l.wSize, csize := r.csize % 2 ^ l.wCsize, flag := r.flag % 2 ^ l.wFlag } :=
+  Bet.readRow_any_width l hw rows i r hi
+
+/-! non-vacuity: two rows whose entry is 22+22+22+1 = 67 bits wide; the second row starts in the middle of byte 8 -/
+example : (Bet.layoutOf [⟨32, 3000000, 3000000, 0⟩, ⟨3000032, 1500011, 90000, 1⟩] 2).entry = 67 := by decide
+example : Bet.readRow (Bet.layoutOf [⟨32, 3000000, 3000000, 0⟩, ⟨3000032, 1500011, 90000, 1⟩] 2)
+    (Bet.tableBytes (Bet.layoutOf [⟨32, 3000000, 3000000, 0⟩, ⟨3000032, 1500011, 90000, 1⟩] 2) [⟨32, 3000000, 3000000, 0⟩, ⟨3000032, 1500011, 90000, 1⟩]) 1
+    = some ⟨3000032, 1500011, 90000, 1⟩ := by decide +kernel
 
 /-! non-vacuity: a 4-slot table with a collision chain -/
 example : findIn (insertIn (insertIn (List.replicate 4 emptyHash) [1, 2, 0, 0] [3, 0, 1, 2]) [5, 6, 0, 1] [3, 0, 1, 2]) 5 6 [3, 0, 1, 2] = some 1 := by decide
